@@ -142,7 +142,7 @@ def check_C02(tier):
 def check_C04(tier):
     run = Run("C04", tier, level="exploration")
     cfgs = configs_for(tier)
-    stats = run_engines(run, ["tables"], cfgs, "C04")
+    stats = run_engines(run, ["tables", "gates"], cfgs, "C04")
     total = sum(s["tables"]["table_entries"] for s in stats.values())
     consts = sum(s["tables"]["constants"] for s in stats.values())
     tabs = sum(s["tables"]["tables"] for s in stats.values())
@@ -150,7 +150,8 @@ def check_C04(tier):
         explanation="Table clause of C04 only: every entry of every built-in precomputed generator table "
                     "(const-evaluated by rustc on the current tree) equals the multiple of the generator it stands "
                     "for, recomputed with independent affine big-integer arithmetic from the curve equations; plus "
-                    "one-line identities of the curve/endomorphism constants. Recoding, windows and endomorphism "
+                    "one-line identities of the curve/endomorphism constants; and the generator fast path's result "
+                    "does not depend on the previous value of its output operand (G11). Recoding, windows and endomorphism "
                     "splitting (n*P for all n) are NOT decided.",
         evaluations=total + consts, distinct=total,
         rule="enumerate all entries of all PRECOMP_* statics in each build configuration; an entry is non-trivial "
